@@ -154,6 +154,28 @@ pub fn worker(ctx: &Ctx) {
             std::thread::sleep(std::time::Duration::from_micros(500));
         }
         db.check().map_err(|e| format!("DB::check: {}", e))?;
+        if let Some(how) = ctx.get("die") {
+            // this holder is killed while it has the database open (power button, OOM killer, kill -9): the
+            // kernel closes its descriptors, nothing of the database's own closing code runs.  Everything it
+            // committed so far is committed; whoever waits for the database must get in and see it.
+            let tx = if how == "2" { db.tx(true).ok() } else { None };
+            if let Some(tx) = &tx {
+                // an uncommitted write transaction is open at the moment of death
+                if let Ok(b) = tx.get_or_create_bucket("markers") {
+                    let _ = b.put(format!("uncommitted-{}", id), vec![0xEE; 300]);
+                }
+            }
+            log.t_closing = now_ns();
+            std::fs::write(&out, serde_json::to_vec(&log).unwrap()).map_err(|e| e.to_string())?;
+            if let Some(tok) = ctx.get("done_token") {
+                let _ = std::fs::write(tok, b"dying");
+            }
+            unsafe {
+                libc::kill(libc::getpid(), libc::SIGKILL);
+            }
+            std::thread::sleep(std::time::Duration::from_secs(5));
+            drop(tx);
+        }
         if let Some(tok) = ctx.get("done_token") {
             let _ = std::fs::write(tok, b"done");
         }
@@ -207,6 +229,10 @@ pub struct Proc {
     /// token this opener writes when all its commits are done (just before it closes the database)
     #[serde(default)]
     pub done: String,
+    /// this holder is killed (SIGKILL) while it has the database open: 1 = idle after its commits,
+    /// 2 = with an uncommitted write transaction open
+    #[serde(default)]
+    pub die: u8,
 }
 
 #[derive(Serialize, Deserialize, Debug, Clone)]
@@ -228,7 +254,7 @@ pub fn forced_cases(thorough: bool) -> Vec<Case> {
                 continue; // an existing file is not written during open
             }
             for b_waits_for in [None, Some("before_mmap#0")] {
-                let a = Proc { grow: 0, done: String::new(), direct: false, alias: false, signals: 0, fail_init: false, soft_ms: 0, delay_us: 0, hold_us: 300, gates: vec![(ap.to_string(), "B-opened".into(), format!("A-at-{}", ai)), ("before_mmap#0".into(), String::new(), "A-at-mmap".into())] };
+                let a = Proc { die: 0, grow: 0, done: String::new(), direct: false, alias: false, signals: 0, fail_init: false, soft_ms: 0, delay_us: 0, hold_us: 300, gates: vec![(ap.to_string(), "B-opened".into(), format!("A-at-{}", ai)), ("before_mmap#0".into(), String::new(), "A-at-mmap".into())] };
                 let mut bg = vec![("after_open#0".to_string(), String::new(), "B-opened".to_string())];
                 if let Some(p) = b_waits_for {
                     if *ap == p {
@@ -237,16 +263,16 @@ pub fn forced_cases(thorough: bool) -> Vec<Case> {
                     // B continues past its open64 only after A has reached its mmap (i.e. holds the lock in correct code)
                     bg = vec![("after_open#0".to_string(), "A-at-mmap".to_string(), "B-opened".to_string())];
                     // then A must not wait for B (it would never come): A only signals
-                    let a2 = Proc { grow: 0, done: String::new(), direct: false, alias: false, signals: 0, fail_init: false, soft_ms: 0, delay_us: 0, hold_us: 2000, gates: vec![(ap.to_string(), String::new(), format!("A-at-{}", ai)), ("before_mmap#0".into(), String::new(), "A-at-mmap".into())] };
-                    v.push(Case { label: format!("existing={} A passes {}; B held after its open64 until A maps", existing, ap), existing, procs: vec![a2, Proc { grow: 0, done: String::new(), direct: false, alias: false, signals: 0, fail_init: false, soft_ms: 0, delay_us: 100, hold_us: 100, gates: bg }] });
+                    let a2 = Proc { die: 0, grow: 0, done: String::new(), direct: false, alias: false, signals: 0, fail_init: false, soft_ms: 0, delay_us: 0, hold_us: 2000, gates: vec![(ap.to_string(), String::new(), format!("A-at-{}", ai)), ("before_mmap#0".into(), String::new(), "A-at-mmap".into())] };
+                    v.push(Case { label: format!("existing={} A passes {}; B held after its open64 until A maps", existing, ap), existing, procs: vec![a2, Proc { die: 0, grow: 0, done: String::new(), direct: false, alias: false, signals: 0, fail_init: false, soft_ms: 0, delay_us: 100, hold_us: 100, gates: bg }] });
                     continue;
                 }
-                v.push(Case { label: format!("existing={} A held at {} until B's open64 returned", existing, ap), existing, procs: vec![a, Proc { grow: 0, done: String::new(), direct: false, alias: false, signals: 0, fail_init: false, soft_ms: 0, delay_us: 200, hold_us: 100, gates: bg.clone() }] });
+                v.push(Case { label: format!("existing={} A held at {} until B's open64 returned", existing, ap), existing, procs: vec![a, Proc { die: 0, grow: 0, done: String::new(), direct: false, alias: false, signals: 0, fail_init: false, soft_ms: 0, delay_us: 200, hold_us: 100, gates: bg.clone() }] });
                 if thorough || ai % 2 == 0 {
                     // three processes: C arrives while A is held as well
-                    let a3 = Proc { grow: 0, done: String::new(), direct: false, alias: false, signals: 0, fail_init: false, soft_ms: 0, delay_us: 0, hold_us: 300, gates: vec![(ap.to_string(), "C-opened".into(), format!("A-at-{}", ai))] };
-                    let b3 = Proc { grow: 0, done: String::new(), direct: false, alias: false, signals: 0, fail_init: false, soft_ms: 0, delay_us: 150, hold_us: 200, gates: vec![("after_open#0".into(), String::new(), "B-opened".into())] };
-                    let c3 = Proc { grow: 0, done: String::new(), direct: false, alias: false, signals: 0, fail_init: false, soft_ms: 0, delay_us: 300, hold_us: 100, gates: vec![("after_open#0".into(), "B-opened".into(), "C-opened".into())] };
+                    let a3 = Proc { die: 0, grow: 0, done: String::new(), direct: false, alias: false, signals: 0, fail_init: false, soft_ms: 0, delay_us: 0, hold_us: 300, gates: vec![(ap.to_string(), "C-opened".into(), format!("A-at-{}", ai))] };
+                    let b3 = Proc { die: 0, grow: 0, done: String::new(), direct: false, alias: false, signals: 0, fail_init: false, soft_ms: 0, delay_us: 150, hold_us: 200, gates: vec![("after_open#0".into(), String::new(), "B-opened".into())] };
+                    let c3 = Proc { die: 0, grow: 0, done: String::new(), direct: false, alias: false, signals: 0, fail_init: false, soft_ms: 0, delay_us: 300, hold_us: 100, gates: vec![("after_open#0".into(), "B-opened".into(), "C-opened".into())] };
                     v.push(Case { label: format!("existing={} three processes, A held at {} until B and C called open64", existing, ap), existing, procs: vec![a3, b3, c3] });
                 }
             }
@@ -257,66 +283,80 @@ pub fn forced_cases(thorough: bool) -> Vec<Case> {
     // the size is read the second opener cannot get that far, the soft timeout expires and the run
     // proceeds normally; if the size is read outside the exclusive lock the ordering happens.
     for existing in [false] {
-        let a = Proc { grow: 0, done: String::new(), direct: false, alias: false, signals: 0, fail_init: false, soft_ms: 300, delay_us: 0, hold_us: 200, gates: vec![("after_stat#0".into(), "B-looked".into(), "A-looked".into())] };
-        let b = Proc { grow: 0, done: String::new(), direct: false, alias: false, signals: 0, fail_init: false, soft_ms: 300, delay_us: 150, hold_us: 200, gates: vec![("after_stat#0".into(), "A-looked".into(), "B-looked".into())] };
+        let a = Proc { die: 0, grow: 0, done: String::new(), direct: false, alias: false, signals: 0, fail_init: false, soft_ms: 300, delay_us: 0, hold_us: 200, gates: vec![("after_stat#0".into(), "B-looked".into(), "A-looked".into())] };
+        let b = Proc { die: 0, grow: 0, done: String::new(), direct: false, alias: false, signals: 0, fail_init: false, soft_ms: 300, delay_us: 150, hold_us: 200, gates: vec![("after_stat#0".into(), "A-looked".into(), "B-looked".into())] };
         v.push(Case { label: "two openers both look at the empty file's size before either initialises it".into(), existing, procs: vec![a.clone(), b.clone()] });
-        let c = Proc { grow: 0, done: String::new(), direct: false, alias: false, signals: 0, fail_init: false, soft_ms: 300, delay_us: 250, hold_us: 100, gates: vec![("after_stat#0".into(), "B-looked".into(), "C-looked".into())] };
+        let c = Proc { die: 0, grow: 0, done: String::new(), direct: false, alias: false, signals: 0, fail_init: false, soft_ms: 300, delay_us: 250, hold_us: 100, gates: vec![("after_stat#0".into(), "B-looked".into(), "C-looked".into())] };
         v.push(Case { label: "three openers all look at the empty file's size before any initialises it".into(), existing, procs: vec![a, b, c] });
-        let a2 = Proc { grow: 0, done: String::new(), direct: false, alias: false, signals: 0, fail_init: false, soft_ms: 400, delay_us: 0, hold_us: 100, gates: vec![("after_stat#0".into(), "B-closing".into(), "A-looked".into())] };
-        let b2 = Proc { grow: 0, done: String::new(), direct: false, alias: false, signals: 0, fail_init: false, soft_ms: 0, delay_us: 300, hold_us: 100, gates: vec![("before_close#0".into(), String::new(), "B-closing".into())] };
+        let a2 = Proc { die: 0, grow: 0, done: String::new(), direct: false, alias: false, signals: 0, fail_init: false, soft_ms: 400, delay_us: 0, hold_us: 100, gates: vec![("after_stat#0".into(), "B-closing".into(), "A-looked".into())] };
+        let b2 = Proc { die: 0, grow: 0, done: String::new(), direct: false, alias: false, signals: 0, fail_init: false, soft_ms: 0, delay_us: 300, hold_us: 100, gates: vec![("before_close#0".into(), String::new(), "B-closing".into())] };
         v.push(Case { label: "an opener that has seen an empty file is held until another opener has created, used and closed the database".into(), existing, procs: vec![a2, b2] });
         // an opener whose initialisation fails (file-size limit) while a second one is queued on the lock and a
         // third arrives later: the failure of the first must not let the other two in together
-        let x = Proc { grow: 0, done: String::new(), direct: false, alias: false, signals: 0, fail_init: true, soft_ms: 300, delay_us: 0, hold_us: 0, gates: vec![("after_stat#0".into(), "Y-opened".into(), "X-looked".into())] };
-        let y = Proc { grow: 0, done: String::new(), direct: false, alias: false, signals: 0, fail_init: false, soft_ms: 0, delay_us: 300, hold_us: 4000, gates: vec![("after_open#0".into(), String::new(), "Y-opened".into())] };
-        let z = Proc { grow: 0, done: String::new(), direct: false, alias: false, signals: 0, fail_init: false, soft_ms: 0, delay_us: 2500, hold_us: 300, gates: vec![] };
+        let x = Proc { die: 0, grow: 0, done: String::new(), direct: false, alias: false, signals: 0, fail_init: true, soft_ms: 300, delay_us: 0, hold_us: 0, gates: vec![("after_stat#0".into(), "Y-opened".into(), "X-looked".into())] };
+        let y = Proc { die: 0, grow: 0, done: String::new(), direct: false, alias: false, signals: 0, fail_init: false, soft_ms: 0, delay_us: 300, hold_us: 4000, gates: vec![("after_open#0".into(), String::new(), "Y-opened".into())] };
+        let z = Proc { die: 0, grow: 0, done: String::new(), direct: false, alias: false, signals: 0, fail_init: false, soft_ms: 0, delay_us: 2500, hold_us: 300, gates: vec![] };
         v.push(Case { label: "the first opener fails to initialise the file while a second is queued on the lock; a third arrives later".into(), existing, procs: vec![x, y, z] });
     }
     // an opener held just BEFORE its open(2) of the path (after anything it may have learnt about the path
     // earlier) until another opener has created the database, committed to it and is about to close it
     {
-        let b = Proc { grow: 0, done: String::new(), direct: false, alias: false, signals: 0, fail_init: false, soft_ms: 0, delay_us: 0, hold_us: 100, gates: vec![("before_open#0".into(), "A-closing".into(), "B-parked".into())] };
-        let a = Proc { grow: 0, done: String::new(), direct: false, alias: false, signals: 0, fail_init: false, soft_ms: 0, delay_us: 0, hold_us: 300, gates: vec![("before_open#0".into(), "B-parked".into(), String::new()), ("before_close#0".into(), String::new(), "A-closing".into())] };
+        let b = Proc { die: 0, grow: 0, done: String::new(), direct: false, alias: false, signals: 0, fail_init: false, soft_ms: 0, delay_us: 0, hold_us: 100, gates: vec![("before_open#0".into(), "A-closing".into(), "B-parked".into())] };
+        let a = Proc { die: 0, grow: 0, done: String::new(), direct: false, alias: false, signals: 0, fail_init: false, soft_ms: 0, delay_us: 0, hold_us: 300, gates: vec![("before_open#0".into(), "B-parked".into(), String::new()), ("before_close#0".into(), String::new(), "A-closing".into())] };
         v.push(Case { label: "an opener is held before its open(2) of a path that does not exist yet until another has created, used and is closing the database".into(), existing: false, procs: vec![b.clone(), a.clone()] });
         // the same while the creator is still in the middle of initialising the file
-        let a2 = Proc { grow: 0, done: String::new(), direct: false, alias: false, signals: 0, fail_init: false, soft_ms: 0, delay_us: 0, hold_us: 2000, gates: vec![("before_open#0".into(), "B-parked".into(), String::new()), ("after_write#0".into(), String::new(), "A-closing".into())] };
+        let a2 = Proc { die: 0, grow: 0, done: String::new(), direct: false, alias: false, signals: 0, fail_init: false, soft_ms: 0, delay_us: 0, hold_us: 2000, gates: vec![("before_open#0".into(), "B-parked".into(), String::new()), ("after_write#0".into(), String::new(), "A-closing".into())] };
         v.push(Case { label: "an opener is held before its open(2) of a path that does not exist yet until another is initialising the file".into(), existing: false, procs: vec![b, a2] });
     }
     // a holder that stays inside for seconds: the second opener must wait that long, not give up and not walk in
     {
-        let a = Proc { grow: 0, done: String::new(), direct: false, alias: false, signals: 0, fail_init: false, soft_ms: 0, delay_us: 0, hold_us: 3_000_000, gates: vec![("before_mmap#0".into(), String::new(), "A-at-mmap".into())] };
-        let b = Proc { grow: 0, done: String::new(), direct: false, alias: false, signals: 0, fail_init: false, soft_ms: 0, delay_us: 0, hold_us: 100, gates: vec![("before_open#0".into(), "A-at-mmap".into(), String::new())] };
+        let a = Proc { die: 0, grow: 0, done: String::new(), direct: false, alias: false, signals: 0, fail_init: false, soft_ms: 0, delay_us: 0, hold_us: 3_000_000, gates: vec![("before_mmap#0".into(), String::new(), "A-at-mmap".into())] };
+        let b = Proc { die: 0, grow: 0, done: String::new(), direct: false, alias: false, signals: 0, fail_init: false, soft_ms: 0, delay_us: 0, hold_us: 100, gates: vec![("before_open#0".into(), "A-at-mmap".into(), String::new())] };
         v.push(Case { label: "the holder keeps the database for three seconds while a second opener is queued".into(), existing: true, procs: vec![a, b] });
     }
     // the holder (or the newcomer) opened with direct_writes(true)
     for (existing, a_direct, b_direct) in [(true, true, false), (false, true, false), (true, false, true), (true, true, true)] {
-        let a = Proc { grow: 0, done: String::new(), direct: a_direct, alias: false, signals: 0, fail_init: false, soft_ms: 0, delay_us: 0, hold_us: 20_000, gates: vec![("before_mmap#0".into(), String::new(), "A-at-mmap".into())] };
-        let b = Proc { grow: 0, done: String::new(), direct: b_direct, alias: false, signals: 0, fail_init: false, soft_ms: 0, delay_us: 0, hold_us: 100, gates: vec![("before_open#0".into(), "A-at-mmap".into(), String::new())] };
+        let a = Proc { die: 0, grow: 0, done: String::new(), direct: a_direct, alias: false, signals: 0, fail_init: false, soft_ms: 0, delay_us: 0, hold_us: 20_000, gates: vec![("before_mmap#0".into(), String::new(), "A-at-mmap".into())] };
+        let b = Proc { die: 0, grow: 0, done: String::new(), direct: b_direct, alias: false, signals: 0, fail_init: false, soft_ms: 0, delay_us: 0, hold_us: 100, gates: vec![("before_open#0".into(), "A-at-mmap".into(), String::new())] };
         v.push(Case { label: format!("existing={} holder direct_writes={} while a second opener (direct_writes={}) arrives", existing, a_direct, b_direct), existing, procs: vec![a, b] });
     }
     // an opener queued on the lock is hit by signals (handler without SA_RESTART); it retries interrupted opens
     for (existing, n) in [(true, 2u32), (false, 3), (true, 6)] {
-        let a = Proc { grow: 0, done: String::new(), direct: false, alias: false, signals: 0, fail_init: false, soft_ms: 0, delay_us: 0, hold_us: 25_000, gates: vec![("before_mmap#0".into(), String::new(), "A-at-mmap".into())] };
+        let a = Proc { die: 0, grow: 0, done: String::new(), direct: false, alias: false, signals: 0, fail_init: false, soft_ms: 0, delay_us: 0, hold_us: 25_000, gates: vec![("before_mmap#0".into(), String::new(), "A-at-mmap".into())] };
         // (B reports that it is parked at its gate - its signal handler is installed by then - before any signal is sent)
-        let b = Proc { grow: 0, done: String::new(), direct: false, alias: false, signals: n, fail_init: false, soft_ms: 0, delay_us: 0, hold_us: 100, gates: vec![("before_open#0".into(), "A-at-mmap".into(), "B-parked".into())] };
+        let b = Proc { die: 0, grow: 0, done: String::new(), direct: false, alias: false, signals: n, fail_init: false, soft_ms: 0, delay_us: 0, hold_us: 100, gates: vec![("before_open#0".into(), "A-at-mmap".into(), "B-parked".into())] };
         v.push(Case { label: format!("existing={} an opener queued on the lock receives {} signals", existing, n), existing, procs: vec![a, b] });
     }
     // the holder EXTENDS the file (1-3 times) while a second (and third) opener is queued on the lock: the lock must
     // be held through every step of a growing commit, and through everything closing the database does
     for (existing, ga, gb, three, a_direct) in [(true, 1u32, 0u32, false, false), (false, 2, 1, false, false), (true, 3, 1, true, false), (true, 2, 0, false, true), (false, 1, 1, true, false)] {
-        let a = Proc { grow: ga, done: String::new(), direct: a_direct, alias: false, signals: 0, fail_init: false, soft_ms: 0, delay_us: 0, hold_us: 20_000, gates: vec![("before_mmap#0".into(), String::new(), "A-at-mmap".into())] };
-        let b = Proc { grow: gb, done: String::new(), direct: false, alias: false, signals: 0, fail_init: false, soft_ms: 0, delay_us: 0, hold_us: 100, gates: vec![("before_open#0".into(), "A-at-mmap".into(), String::new())] };
+        let a = Proc { die: 0, grow: ga, done: String::new(), direct: a_direct, alias: false, signals: 0, fail_init: false, soft_ms: 0, delay_us: 0, hold_us: 20_000, gates: vec![("before_mmap#0".into(), String::new(), "A-at-mmap".into())] };
+        let b = Proc { die: 0, grow: gb, done: String::new(), direct: false, alias: false, signals: 0, fail_init: false, soft_ms: 0, delay_us: 0, hold_us: 100, gates: vec![("before_open#0".into(), "A-at-mmap".into(), String::new())] };
         let mut procs = vec![a, b.clone()];
         if three {
             procs.push(Proc { alias: true, grow: 1, ..b.clone() });
         }
         v.push(Case { label: format!("existing={} the holder (direct_writes={}) extends the file {} time(s) while {} opener(s) are queued; the next extends it {} time(s)", existing, a_direct, ga, procs.len() - 1, gb), existing, procs });
     }
+    // the holder is KILLED while it has the database open and one or two openers are queued on the lock: the
+    // kernel closes its descriptors, none of the database's closing code runs.  The queued openers must get
+    // in (one at a time), see what the dead holder had committed and nothing of what it had not, and the
+    // file must be sound.  (A lock that has to be given back by code - a lock file, an "in use" flag in the
+    // file - stays taken for ever.)
+    for (existing, die, grow, three) in [(true, 1u8, 0u32, false), (false, 1, 1, false), (true, 2, 0, false), (false, 2, 1, true), (true, 1, 2, true)] {
+        let a = Proc { die, grow, done: String::new(), direct: false, alias: false, signals: 0, fail_init: false, soft_ms: 0, delay_us: 0, hold_us: 30_000, gates: vec![("before_mmap#0".into(), String::new(), "A-at-mmap".into())] };
+        let b = Proc { die: 0, grow: 0, done: String::new(), direct: false, alias: false, signals: 0, fail_init: false, soft_ms: 0, delay_us: 0, hold_us: 100, gates: vec![("before_open#0".into(), "A-at-mmap".into(), String::new())] };
+        let mut procs = vec![a, b.clone()];
+        if three {
+            procs.push(Proc { grow: 1, ..b.clone() });
+        }
+        v.push(Case { label: format!("existing={} the holder is killed (mode {}, after {} extension(s)) while {} opener(s) are queued on the lock", existing, die, grow, procs.len() - 1), existing, procs });
+    }
     // whatever closing does after the lock is gone must not touch the file: if the holder that extended the file
     // ever truncates it while closing, it is held there until the next opener has committed and is about to close
     for existing in [true, false] {
-        let a = Proc { grow: 1, done: String::new(), direct: false, alias: false, signals: 0, fail_init: false, soft_ms: 0, delay_us: 0, hold_us: 10_000, gates: vec![("before_mmap#0".into(), String::new(), "A-at-mmap".into()), ("before_truncate#0".into(), "B-done".into(), String::new())] };
-        let b = Proc { grow: 1, done: "B-done".into(), direct: false, alias: false, signals: 0, fail_init: false, soft_ms: 0, delay_us: 0, hold_us: 100, gates: vec![("before_open#0".into(), "A-at-mmap".into(), String::new())] };
+        let a = Proc { die: 0, grow: 1, done: String::new(), direct: false, alias: false, signals: 0, fail_init: false, soft_ms: 0, delay_us: 0, hold_us: 10_000, gates: vec![("before_mmap#0".into(), String::new(), "A-at-mmap".into()), ("before_truncate#0".into(), "B-done".into(), String::new())] };
+        let b = Proc { die: 0, grow: 1, done: "B-done".into(), direct: false, alias: false, signals: 0, fail_init: false, soft_ms: 0, delay_us: 0, hold_us: 100, gates: vec![("before_open#0".into(), "A-at-mmap".into(), String::new())] };
         v.push(Case { label: format!("existing={} a holder that extended the file closes while the next opener (which extends it again) is queued", existing), existing, procs: vec![a, b] });
     }
     v
@@ -394,6 +434,9 @@ pub fn run_case(c: &Case, dir: &Path, exe: &Path, shim: &str, n: u64) -> Outcome
         if !p.done.is_empty() {
             cmd.args(["--set", &format!("done_token={}", sub.join(&p.done).display())]);
         }
+        if p.die > 0 {
+            cmd.args(["--set", &format!("die={}", p.die)]);
+        }
         if !p.gates.is_empty() || p.fail_init {
             cmd.env("LD_PRELOAD", shim).env("VERIF_DBPATH", db.display().to_string()).env("VERIF_GATES", gates.join(";"));
         } else {
@@ -431,25 +474,61 @@ pub fn run_case(c: &Case, dir: &Path, exe: &Path, shim: &str, n: u64) -> Outcome
             }
         }
     }
-    // generous wall-clock watchdog; a hang is inconclusive unless the logs show a violation
+    // generous wall-clock watchdog; a hang is inconclusive unless the logs show a violation - with one
+    // exception that does not rest on the clock alone: once a holder that was to be killed is dead (reaped
+    // here), nobody holds the database any more and nothing else is going to happen; an opener that is
+    // still asleep (process state S, next to no CPU time used) twenty seconds later waits for a lock that
+    // nobody will give back.
     let t0 = std::time::Instant::now();
     let mut hung = false;
-    for ch in children.iter_mut() {
-        loop {
+    let mut holder_died_at: Option<std::time::Instant> = None;
+    let mut stuck_after_death: Vec<usize> = Vec::new();
+    let mut done = vec![false; children.len()];
+    while done.iter().any(|d| !*d) {
+        for (i, ch) in children.iter_mut().enumerate() {
+            if done[i] {
+                continue;
+            }
             match ch.try_wait() {
-                Ok(Some(_)) => break,
-                Ok(None) => {
-                    if t0.elapsed().as_secs() > 30 {
-                        let _ = ch.kill();
-                        let _ = ch.wait();
-                        hung = true;
-                        break;
+                Ok(Some(_)) => {
+                    done[i] = true;
+                    if c.procs[i].die > 0 && holder_died_at.is_none() {
+                        holder_died_at = Some(std::time::Instant::now());
                     }
-                    std::thread::sleep(std::time::Duration::from_micros(300));
                 }
-                Err(_) => break,
+                Ok(None) => {}
+                Err(_) => done[i] = true,
             }
         }
+        let after_death = holder_died_at.map(|t| t.elapsed().as_secs() >= 20).unwrap_or(false);
+        if t0.elapsed().as_secs() > 45 || after_death {
+            for (i, ch) in children.iter_mut().enumerate() {
+                if done[i] {
+                    continue;
+                }
+                if after_death && c.procs[i].die == 0 {
+                    // state and CPU time of the opener that has not come back
+                    let stat = std::fs::read_to_string(format!("/proc/{}/stat", ch.id())).unwrap_or_default();
+                    let f: Vec<&str> = stat.rsplit_once(") ").map(|x| x.1.split(' ').collect()).unwrap_or_default();
+                    let state = f.first().copied().unwrap_or("?");
+                    let ticks: u64 = f.get(11).and_then(|x| x.parse::<u64>().ok()).unwrap_or(0) + f.get(12).and_then(|x| x.parse::<u64>().ok()).unwrap_or(0);
+                    if state == "S" && ticks < 200 {
+                        stuck_after_death.push(i);
+                    }
+                }
+                let _ = ch.kill();
+                let _ = ch.wait();
+                done[i] = true;
+                hung = true;
+            }
+        }
+        std::thread::sleep(std::time::Duration::from_micros(300));
+    }
+    for i in &stuck_after_death {
+        o.violations.push((
+            "opener-never-gets-in-after-the-holder-was-killed".into(),
+            format!("[{}] opener {} was still asleep 20 s after the process that held the database had been killed (nobody holds the database, nothing else was running)", c.label, i),
+        ));
     }
     let timeouts = std::fs::read_dir(&sub).map(|d| d.filter_map(|e| e.ok()).any(|e| e.file_name().to_string_lossy().ends_with(".timeout"))).unwrap_or(false);
     let mut logs: Vec<WorkerLog> = Vec::new();
@@ -560,7 +639,7 @@ pub fn run(ctx: &Ctx) -> Shard {
         for _ in 0..n {
             let k = 2 + rng.usize(2);
             let existing = rng.chance(1, 2);
-            let procs = (0..k).map(|pi| Proc { grow: if rng.chance(1, 3) { 1 + rng.below(2) as u32 } else { 0 }, done: String::new(), direct: rng.chance(1, 4), alias: pi == 1 && rng.chance(1, 2), signals: 0, fail_init: false, soft_ms: 0, delay_us: rng.below(3000), hold_us: rng.below(5000), gates: vec![] }).collect();
+            let procs = (0..k).map(|pi| Proc { die: if pi == 0 && rng.chance(1, 6) { 1 + rng.below(2) as u8 } else { 0 }, grow: if rng.chance(1, 3) { 1 + rng.below(2) as u32 } else { 0 }, done: String::new(), direct: rng.chance(1, 4), alias: pi == 1 && rng.chance(1, 2), signals: 0, fail_init: false, soft_ms: 0, delay_us: rng.below(3000), hold_us: rng.below(5000), gates: vec![] }).collect();
             cases.push(Case { label: format!("{} processes, seeded offsets, existing={}", k, existing), existing, procs });
         }
     }
@@ -587,6 +666,12 @@ pub fn run(ctx: &Ctx) -> Shard {
         }
         if c.procs.iter().any(|p| p.grow > 0) {
             shard.count("runs_in_which_a_holder_extended_the_file_with_others_queued", 1);
+        }
+        if c.procs.iter().any(|p| p.die > 0) {
+            shard.count("runs_in_which_a_holder_was_killed_while_it_had_the_database_open", 1);
+            if o.verified {
+                shard.count("runs_with_a_killed_holder_after_which_everything_committed_was_found", 1);
+            }
         }
         shard.count(if c.procs.len() == 2 { "runs_with_2_processes" } else { "runs_with_3_processes" }, 1);
         shard.count(if c.existing { "runs_on_existing_file" } else { "runs_on_file_not_yet_created" }, 1);
